@@ -27,6 +27,14 @@ def configs(ctx):
             out.append(dict(move="prg", npts=npts, data_op=0.0, alpha=a))
             if npts <= 3:
                 out.append(dict(move="prg", npts=npts, data_op=0.2, alpha=a, outlier_states=True))
+    # the same sampler object used over sweeps while the concentration changes in place (as the run loop does): a few sweeps at
+    # another concentration first (anything the sampler remembers about candidate trees must not survive the change)
+    from ..trees import all_specs as _all_specs
+
+    for outl in (False, True):
+        # warm-up on the start tree only: some candidates of the enumerated sweep are then remembered, others are new
+        out.append(dict(move="dp", npts=3, outliers=outl, data_op=0.2 if outl else 0.0, alpha=2.5, warm_alpha=0.3, warm_seed=ctx.rng.randrange(10**6), warm_specs=None))
+    out.append(dict(move="prg", npts=3, data_op=0.0, alpha=0.3, warm_alpha=2.5, warm_seed=ctx.rng.randrange(10**6), warm_specs=None))
     # subtree particle Gibbs
     for kind in KINDS:
         for (dop, pop) in ((0.0, 0.0), (0.2, 0.1)):
